@@ -43,17 +43,21 @@ package index
 // ---------------------------------------------------------------------------
 
 // clearTrigrams empties or allocates the scratch map (assumed: the builtin
-// clear is outside the verifier's subset); nothing else is written.
+// clear is outside the verifier's subset); nothing else is written. Check
+// relies on it: the trigrams it counts against the limit are those of the
+// document at hand only (loop invariant: never more distinct trigrams than
+// bytes consumed), so the verdict does not depend on earlier documents.
 //@ func index.(*DocChecker).clearTrigrams
 //@   trusted
 //@   requires t != nil
-//@   ensures t.trigrams != nil && (t.trigrams == old(t.trigrams) || fresh(t.trigrams))
+//@   ensures t.trigrams != nil && (t.trigrams == old(t.trigrams) || fresh(t.trigrams)) && len(t.trigrams) == 0
 //@   assigns t.trigrams, mapof(t.trigrams)
 
 //@ func index.(*DocChecker).Check
 //@   requires t != nil
 //@   loop 1:
 //@     invariant t.trigrams != nil && (t.trigrams == old(t.trigrams) || fresh(t.trigrams))
+//@     invariant len(t.trigrams) <= byteCount
 //@     invariant 0 <= cur[0] && cur[0] <= 1114111 && 0 <= cur[1] && cur[1] <= 1114111 && 0 <= cur[2] && cur[2] <= 1114111
 //@     decreases len(content)
 //@     assigns mapof(t.trigrams)
